@@ -81,6 +81,20 @@ func structFieldNames(sp *ssa.Package, tn string) []string {
 // newLexerInit: the constants NewLexer gives to each field.
 func constructorInit(fn *ssa.Function, tn string) map[string]string {
 	out := map[string]string{}
+	// a constructor may leave part of the initialisation to a method of the new object (NewLexer calling Reset)
+	for _, b := range fn.Blocks {
+		for _, in := range b.Instrs {
+			if call, ok := in.(*ssa.Call); ok {
+				if f := call.Call.StaticCallee(); f != nil && f.Signature.Recv() != nil && len(call.Call.Args) > 0 && f.Blocks != nil {
+					if _, isAlloc := call.Call.Args[0].(*ssa.Alloc); isAlloc && isNamedStruct(call.Call.Args[0].Type(), tn) {
+						for k, v := range recvFieldStoresDeep(f, map[*ssa.Function]bool{}) {
+							out[k] = valueText(v)
+						}
+					}
+				}
+			}
+		}
+	}
 	for _, b := range fn.Blocks {
 		for _, in := range b.Instrs {
 			if st, ok := in.(*ssa.Store); ok {
